@@ -24,4 +24,5 @@ CasesDir == {[kind |-> "dir", style |-> "dir", hascmap |-> h, subs |-> s] :
 MCCases == Cases4 \cup Cases0 \cup Cases2 \cup CasesDir
 AllDev == {"F4RangeBase", "F4ZeroDelta", "F2SingleHigh", "F2OneHigh", "F2NoModulo", "BadFormatAsserts"}
 NoDev == {}
+DL2Full == {0, 5, -2}
 ====
